@@ -39,6 +39,12 @@ pub enum Token {
 pub fn tokenize_expression(input: &str) -> Result<Vec<Token>, CompilerError> {
     let mut tokens = Vec::new();
     let chars: Vec<char> = input.chars().collect();
+    // `index` counts characters; slices of `input` need the byte offset of each of them
+    let offsets: Vec<usize> = input
+        .char_indices()
+        .map(|(offset, _)| offset)
+        .chain(std::iter::once(input.len()))
+        .collect();
     let mut index = 0;
 
     while index < chars.len() {
@@ -49,7 +55,7 @@ pub fn tokenize_expression(input: &str) -> Result<Vec<Token>, CompilerError> {
         }
 
         if ch == '-' && chars.get(index + 1) == Some(&'>') {
-            let rest = input[index + 2..].trim_start();
+            let rest = input[offsets[index + 2]..].trim_start();
             let parsed = parse_path_identifier(rest).ok_or_else(|| {
                 CompilerError::invalid_source("expected divert target after '->'".to_owned())
             })?;
@@ -59,7 +65,7 @@ pub fn tokenize_expression(input: &str) -> Result<Vec<Token>, CompilerError> {
             while index < chars.len() && chars[index].is_whitespace() {
                 index += 1;
             }
-            index += parsed.len(); // skip the target name
+            index += parsed.chars().count(); // skip the target name
             continue;
         }
 
@@ -179,16 +185,16 @@ pub fn tokenize_expression(input: &str) -> Result<Vec<Token>, CompilerError> {
                     }
                     index += 1;
                 }
-                let token_text = &input[start..index];
+                let token_text = &input[offsets[start]..offsets[index]];
                 if saw_identifier_tail {
                     tokens.push(Token::Ident(token_text.to_owned()));
                 } else if saw_dot {
-                    let value = input[start..index].parse::<f32>().map_err(|error| {
+                    let value = token_text.parse::<f32>().map_err(|error| {
                         CompilerError::invalid_source(format!("invalid float literal: {error}"))
                     })?;
                     tokens.push(Token::Float(value));
                 } else {
-                    let value = input[start..index].parse::<i32>().map_err(|error| {
+                    let value = token_text.parse::<i32>().map_err(|error| {
                         CompilerError::invalid_source(format!("invalid integer literal: {error}"))
                     })?;
                     tokens.push(Token::Int(value));
@@ -202,7 +208,7 @@ pub fn tokenize_expression(input: &str) -> Result<Vec<Token>, CompilerError> {
                 {
                     index += 1;
                 }
-                let ident = &input[start..index];
+                let ident = &input[offsets[start]..offsets[index]];
                 match ident {
                     "true" => tokens.push(Token::Bool(true)),
                     "false" => tokens.push(Token::Bool(false)),
@@ -294,9 +300,8 @@ pub fn split_top_level_commas(input: &str) -> Vec<&str> {
     let mut start = 0;
     let mut depth = 0;
     let mut in_string = false;
-    let chars: Vec<char> = input.chars().collect();
 
-    for (index, ch) in chars.iter().enumerate() {
+    for (index, ch) in input.char_indices() {
         match ch {
             '"' => in_string = !in_string,
             '(' if !in_string => depth += 1,
